@@ -49,6 +49,16 @@ def run(chk, replay=None):
         # ---- model -> code
         vlib.replay_cases(chk, "C13Cases", vlib.cfg("C13_cases_%s.cfg" % tier, SEED=seed), "c13.cases", "cases_replay", timeout=1800)
         chk.cov["exhaustive"] = True      # the single-bit / walking pattern families are complete; random values are sampled
+        # ---- version-1/2 timestamps <-> Go time ("all timestamps representable as Go time"): the WinTime specification of C15
+        # is the reference; only the verdicts about the UUID accessors are taken over here
+        sub = vlib.Check("C13", chk.tier, chk.seed)
+        c15 = vlib.cfg("C15_cases_quick.cfg", SEED=seed).replace('Kinds = {"tick", "int", "time", "text"}', 'Kinds = {"tick", "time"}')
+        vlib.replay_cases(sub, "C15Cases", c15, "c15.cases", "uuid_time_cases", timeout=1800)
+        for f in sub.failures:
+            if f["site"].startswith("uuid_v"):
+                chk.fail(f["site"], "time:" + f["aspect"], f["detail"], f["sample"], drift=f["drift"])
+        chk.cov["states"] += sub.cov["states"]; chk.cov["transitions"] += sub.cov["transitions"]
+        chk.cov["parts"]["uuid_time_cases"] = sub.cov["parts"].get("uuid_time_cases", {})
         # ---- code -> model
         trace, res = os.path.join(d, "trace.ndjson"), os.path.join(d, "rec.res")
         vlib.run_harness("c13.record", None, res, {"trace": trace, "events": 20000 if tier == "quick" else 250000, "seed": chk.seed})
